@@ -21,7 +21,7 @@ TIERS = {'quick': (40000, 150), 'thorough': (1500000, 1800)}
 PROBES = ['state_compressed_gt57', 'cookie_b64_gt76', 'token_compressed_gt57',
           'collapse_with_expanded_descendant', 'stale_click', 'dup_request',
           'cookie_loss', 'expand_all', 'collapse_all', 'nonascii_id',
-          'astral_id', 'lone_surrogate_id', 'surrogate_pair_in_id', 'int_id', 'same_id_in_two_subtrees', 'stale_undefined',
+          'astral_id', 'acquisition_wrapped_nodes', 'lone_surrogate_id', 'surrogate_pair_in_id', 'int_id', 'same_id_in_two_subtrees', 'stale_undefined',
           'assume_children_leaf_expanded', 'codec_case', 'depth_ge_4',
           'two_expanded_siblings', 'state_json_gt32k',
           'leaf_without_branches_method', 'foreign_cookie', 'falsy_id']
@@ -130,6 +130,40 @@ class NodeOtherId(Node):
 
     def tpId(self):
         return 'not-the-id'
+
+
+_ACQ = []
+
+
+def acq_classes():
+    """nodes as they live in a ZODB site: Acquisition wrappers, and the
+    branches method is ONE script object kept in the site root that every
+    node below acquires (branches="branchlist")"""
+    if not _ACQ:
+        from Acquisition import Implicit, aq_base, aq_parent
+
+        class AcqNode(Implicit):
+            def __init__(self, idx, tid, kids):
+                self.idx, self.tid, self.kids = idx, tid, kids
+                self.skey = idx
+
+            def tpId(self):
+                return self.tid
+
+            @property
+            def myid(self):
+                return self.tid
+
+        class AcqNodeOtherId(AcqNode):
+            def tpId(self):
+                return 'not-the-id'
+
+        class BranchScript(Implicit):
+            def __call__(self):
+                ctx = aq_parent(self)     # the node it was acquired through
+                return [k.__of__(ctx) for k in aq_base(ctx).kids]
+        _ACQ.extend([AcqNode, AcqNodeOtherId, BranchScript])
+    return _ACQ
 
 
 class Response:
@@ -287,8 +321,13 @@ def gen_case(seed, tier):
             for k_ in n[2]:
                 yield from leaves(k_)
         bare = [i for i in leaves(tree) if i != tree[0] and r.random() < 0.5]
+    acq = core.stream(seed, 'c20acq').random() < 0.06
+    if acq:
+        opts.pop('branches_expr', None)
+        opts['branches'] = 'branchlist'
+        bare = []
     return {'kind': 'sim', 'tree': tree, 'opts': opts, 'history': hist,
-            'bare': bare}
+            'bare': bare, 'acq': acq}
 
 
 def build(tree, cls=Node, bare=(), bare_cls=BareNode):
@@ -462,9 +501,15 @@ def run_case(case):
             vs[0]['key'] = 'codec:surrogate-pair-in-id'
         return vs
     other = case['opts'].get('id')
-    root = build(case['tree'], NodeOtherId if other else Node,
-                 set(case.get('bare', ())),
-                 BareNodeOtherId if other else BareNode)
+    if case.get('acq'):
+        AcqNode, AcqNodeOtherId, BranchScript = acq_classes()
+        root = build(case['tree'], AcqNodeOtherId if other else AcqNode)
+        root.branchlist = BranchScript()
+        probe('acquisition_wrapped_nodes')
+    else:
+        root = build(case['tree'], NodeOtherId if other else Node,
+                     set(case.get('bare', ())),
+                     BareNodeOtherId if other else BareNode)
     if case.get('bare'):
         probe('leaf_without_branches_method')
     opts = case['opts']
@@ -591,6 +636,14 @@ def run_case(case):
                          path=[rootid] + list(path))
                     return None
             out_rows.append((idx, path, link))
+        # "the state cookie written describes that same set": nothing in it
+        # but nodes that are on the page (an expanded node is shown, since
+        # all its ancestors are expanded)
+        phantom = E - {tuple(path) for (_i, path, _l) in out_rows}
+        if phantom:
+            viol('cookie', 'cookie:state-names-a-node-not-shown', what=what,
+                 phantom=sorted(map(list, phantom), key=repr)[:4], state=st)
+            return None
         # sibling probe
         for p in E:
             if any(q != p and q[:-1] == p[:-1] for q in E):
